@@ -611,7 +611,7 @@ func genHostile(t *rapid.T, cd gen.Codecs, skel []gen.Item) Msg {
 	if rapid.IntRange(0, 11).Draw(t, "rtpEdge") == 0 {
 		return genRtpEdge(t)
 	}
-	if rapid.IntRange(0, 24).Draw(t, "manyNals") == 0 {
+	if rapid.IntRange(0, 39).Draw(t, "manyNals") == 0 {
 		return genManyNals(t)
 	}
 	switch rapid.IntRange(0, 39).Draw(t, "hostileClass") {
